@@ -191,6 +191,8 @@ def _case_cms(rng, tmp):
         from search.common import net_zero
 
         netzero = net_zero(obj)
+        if netzero and rng.random() < 0.5:
+            core.call(obj.remove, "nz-further", rng.choice([1, 3, 2**31]))  # and below zero: the total is signed
     desc = f"{kind}(width={w}, depth={d}, hash={sname}) after {len(members)} adds" + (" and a removal from another key that brings elements_added to 0" if netzero else "")
     chans, path = _export_channels(obj, tmp, "cm")
     probs = []
